@@ -58,8 +58,8 @@ theorem fmt_examples :
 
 /-! ## profile tables: exactly one row per simulated (and construction) year, in order -/
 
-theorem profile_rows (L n : Nat) (s : List Rat) :
-    (profileRows L n s).length = L ∧ ∀ i (h : i < L), (profileRows L n s)[i]'(by simp [profileRows]; exact h) = (i + 1, s.getD (i * n) 0) := by
+theorem profile_rows (first L n : Nat) (s : List Rat) :
+    (profileRows first L n s).length = L ∧ ∀ i (h : i < L), (profileRows first L n s)[i]'(by simp [profileRows]; exact h) = (first + i, s.getD (i * n) 0) := by
   constructor
   · simp [profileRows]
   · intro i h; simp [profileRows]
@@ -71,16 +71,16 @@ theorem stride_in_bounds (L n : Nat) (s : List Rat) (hlen : s.length = L * n) (h
   exact Nat.mul_lt_mul_of_pos_right hi hn
 
 /-- so every profile row shows an actual point of the series (never the out-of-range default) -/
-theorem profile_rows_from_series (L n : Nat) (s : List Rat) (hlen : s.length = L * n) (hn : 0 < n) (i : Nat) (hi : i < L) :
-    (profileRows L n s)[i]'(by simp [profileRows]; exact hi) = (i + 1, s[i * n]'(stride_in_bounds L n s hlen hn i hi)) := by
-  rw [(profile_rows L n s).2 i hi]
+theorem profile_rows_from_series (first L n : Nat) (s : List Rat) (hlen : s.length = L * n) (hn : 0 < n) (i : Nat) (hi : i < L) :
+    (profileRows first L n s)[i]'(by simp [profileRows]; exact hi) = (first + i, s[i * n]'(stride_in_bounds L n s hlen hn i hi)) := by
+  rw [(profile_rows first L n s).2 i hi]
   simp [List.getD_eq_getElem?_getD, List.getElem?_eq_getElem (stride_in_bounds L n s hlen hn i hi)]
 
-theorem profile_years_ascending (L n : Nat) (s : List Rat) : (profileRows L n s).map (·.1) = (List.range L).map (· + 1) := by
+theorem profile_years_ascending (first L n : Nat) (s : List Rat) : (profileRows first L n s).map (·.1) = (List.range L).map (first + ·) := by
   simp [profileRows, List.map_map, Function.comp_def]
 
 theorem cashflow_rows (cy L : Nat) (s : List Rat) :
-    (cashflowRows cy L s).length = cy + L ∧ (cashflowRows cy L s).map (·.1) = (List.range (cy + L)).map (· + 1) := by
+    (cashflowRows cy L s).length = cy + L ∧ (cashflowRows cy L s).map (·.1) = List.range (cy + L) := by
   simp [cashflowRows, List.map_map, Function.comp_def]
 
 /-- aggregates are what their names say (the max is attained and dominates; the mean times the count is the sum) -/
